@@ -55,7 +55,13 @@ Definition primary_body (fuel : nat) (acc : seq_access) (s : st) : res primary *
   field (p_eid fuel) acc s (fun rpt acc s =>
   field (p_pair two64 two64 fuel) acc s (fun ts acc s =>
   field (p_u64 fuel) acc s (fun lifetime acc s =>
-    let rest := match size_hint acc with Some n => n | None => 0 end in
+    (* primary.rs: `seq.size_hint().unwrap_or_else(|| ..)`: without a size hint (indefinite-length inner array,
+       JSON) the 'is fragment' flag and the CRC type tell how many elements follow *)
+    let rest := match size_hint acc with
+                | Some n => n
+                | None => (if bundle_flag flags BUNDLE_IS_FRAGMENT then 2 else 0)
+                          + (if (crc_type =? CRC_16) || (crc_type =? CRC_32) then 1 else 0)
+                end in
     let frag (k : N -> N -> seq_access -> st -> res primary * seq_access * st) :=
       if 1 <? rest then
         field (p_u64 fuel) acc s (fun off acc s =>
